@@ -403,7 +403,167 @@ func genBF(r *world.Rng, w *world.World) {
 	schedSingle(r, w)
 }
 
-func genC19(r *world.Rng, w *world.World, big bool) { stubCNF(r, w) }
+func randBF(r *world.Rng, depth int, vars []string) *ref.BF {
+	if depth == 0 || r.Bool(0.3) {
+		v := &ref.BF{Op: "var", Var: vars[r.Intn(len(vars))]}
+		if r.Bool(0.3) {
+			return &ref.BF{Op: "not", Subs: []*ref.BF{v}}
+		}
+		return v
+	}
+	switch r.Intn(6) {
+	case 0:
+		return &ref.BF{Op: "and", Subs: []*ref.BF{randBF(r, depth-1, vars), randBF(r, depth-1, vars)}}
+	case 1:
+		return &ref.BF{Op: "or", Subs: []*ref.BF{randBF(r, depth-1, vars), randBF(r, depth-1, vars)}}
+	case 2:
+		return &ref.BF{Op: "implies", Subs: []*ref.BF{randBF(r, depth-1, vars), randBF(r, depth-1, vars)}}
+	case 3:
+		return &ref.BF{Op: "eq", Subs: []*ref.BF{randBF(r, depth-1, vars), randBF(r, depth-1, vars)}}
+	case 4:
+		return &ref.BF{Op: "not", Subs: []*ref.BF{randBF(r, depth-1, vars)}}
+	default:
+		k := r.Range(1, min(5, len(vars)))
+		p := r.Perm(len(vars))
+		u := &ref.BF{Op: "unique"}
+		for i := 0; i < k; i++ {
+			u.Names = append(u.Names, vars[p[i]])
+		}
+		return u
+	}
+}
+
+func genC19(r *world.Rng, w *world.World, big bool) {
+	kind := r.PickS("cnf", "cnf", "opb", "opb", "wcnf", "bf")
+	t := world.TaskSpec{Kind: "cli", Entry: kind}
+	var flags []string
+	verboseOK := true
+	switch kind {
+	case "cnf":
+		f := r.PickS("", "", "-count", "-certified", "-mus", "-cp", "-verbose")
+		if f == "-mus" {
+			n, cl := explainInstance(r, 7, 12)
+			t.N, t.Clauses = n, cl
+			t.Text = dimacsText(r, n, cl, true)
+		} else {
+			n, cl := cnfInstance(r, 9, true)
+			if f == "-count" && len(cl) < n && n > 7 {
+				n = 7
+				var keep [][]int
+				for _, c := range cl {
+					ok := true
+					for _, l := range c {
+						if l > 7 || l < -7 {
+							ok = false
+						}
+					}
+					if ok {
+						keep = append(keep, c)
+					}
+				}
+				cl = keep
+			}
+			if cl == nil {
+				cl = [][]int{}
+			}
+			t.N, t.Clauses = n, cl
+			t.Text = dimacsText(r, n, cl, false)
+		}
+		if f != "" {
+			flags = append(flags, f)
+		}
+	case "opb":
+		n, cs := consInstance(r, 8, []string{"clause", "card", "pb", "pb"}, r.Pick(3, 6))
+		for i := range cs {
+			if cs[i].Op == "<=" || cs[i].Op == "" {
+				cs[i].Op = ">="
+			}
+		}
+		top := topVarClause(r, n)
+		top.Op = ">="
+		cs = append(cs, top)
+		t.N, t.Cons = n, cs
+		if r.Bool(0.7) {
+			t.Cost = randCost(r, n, 5)
+		}
+		t.Text = opbText(r, n, cs, t.Cost)
+		if f := r.PickS("", "", "-count", "-cp", "-verbose"); f != "" {
+			flags = append(flags, f)
+		}
+	case "wcnf":
+		sub := world.World{}
+		genC04(r, &sub, big)
+		for sub.Tasks[0].Route != "wcnf" {
+			sub = world.World{}
+			genC04(r, &sub, big)
+		}
+		t.N, t.Soft, t.Text = sub.Tasks[0].N, sub.Tasks[0].Soft, sub.Tasks[0].Text
+		if r.Bool(0.3) {
+			flags = append(flags, "-verbose")
+		}
+	case "bf":
+		vars := []string{"a", "b", "c", "d", "e", "f"}[:r.Range(2, 6)]
+		top := &ref.BF{Op: "top"}
+		for i := 0; i < r.Range(1, 4); i++ {
+			top.Subs = append(top.Subs, randBF(r, 3, vars))
+		}
+		t.Formula = top
+		t.Text = top.Render()
+		if r.Bool(0.5) {
+			t.Text += "\n"
+		}
+		verboseOK = false
+	}
+	if verboseOK && len(flags) == 1 && flags[0] != "-verbose" && r.Bool(0.25) {
+		flags = append([]string{"-verbose"}, flags...)
+	}
+	path := fmt.Sprintf("in%d.%s", r.Intn(1000), kind)
+	file := world.SimFile{Path: path, Data: t.Text, Chunks: chunks(r)}
+	t.Route = "ok"
+	if r.Bool(0.15) {
+		switch r.Intn(5) {
+		case 0:
+			file.OpenErr = "ENOENT"
+			t.Route = "unreadable"
+		case 1:
+			file.OpenErr = "EACCES"
+			t.Route = "unreadable"
+		case 2: // a directory carrying a known suffix: the first read fails
+			file.ReadErr = -1
+			t.Route = "unreadable"
+		case 3: // read error in the middle of the file
+			if len(file.Data) > 2 {
+				file.ReadErr = r.Range(1, len(file.Data)-1)
+			} else {
+				file.ReadErr = -1
+			}
+			t.Route = "unreadable"
+		case 4:
+			path = strings.TrimSuffix(path, kind) + r.PickS("txt", "dimacs", "CNF", "sat")
+			file.Path = path
+			t.Route = "unknown"
+			// -mus reads anything as DIMACS: no suffix dispatch on that path
+			var fl []string
+			for _, f := range flags {
+				if f != "-mus" {
+					fl = append(fl, f)
+				}
+			}
+			flags = fl
+		}
+	}
+	t.Files = []world.SimFile{file}
+	t.Argv = append(append([]string{"gophersat"}, flags...), path)
+	w.Tasks = []world.TaskSpec{t}
+	knobs(r, w)
+	schedMulti(r, w)
+	w.Sched.Burst = r.Pick(3, 20, 200)
+	for _, f := range flags {
+		if f == "-verbose" {
+			w.Sched.TickProb = []float64{0, 0.02, 0.2}[r.Intn(3)]
+		}
+	}
+}
 
 func stubCNF(r *world.Rng, w *world.World) {
 	n, cl := cnfInstance(r, 12, false)
